@@ -1158,10 +1158,16 @@ fn gen_msg(rng: &mut Rng, d: &[[u8; 32]; 7]) -> Vec<u8> {
 }
 
 fn gen_bundle(rng: &mut Rng, parent_counter: &mut u64, tamper_pct: u64, d: &[[u8; 32]; 7]) -> BundleSpec {
-    let nspends = match rng.below(6) {
-        0..=2 => 1,
-        3 | 4 => 2,
-        _ => 3,
+    // one bundle in 40 spends nothing at all: then no pair is due and only the identity
+    // signature is valid
+    let nspends = if rng.chance(1, 40) {
+        0
+    } else {
+        match rng.below(6) {
+            0..=2 => 1,
+            3 | 4 => 2,
+            _ => 3,
+        }
     };
     let mut spends = vec![];
     // swarm: a per-bundle subset of opcodes
@@ -1219,7 +1225,14 @@ fn gen_bundle(rng: &mut Rng, parent_counter: &mut u64, tamper_pct: u64, d: &[[u8
         spends.push(SpendSpec { parent_seed, amount, conds, quoted: rng.chance(1, 3), fillers });
     }
     let total: usize = spends.iter().map(|s| s.conds.len()).sum();
-    let tamper = if rng.below(100) < tamper_pct {
+    let tamper = if nspends == 0 && rng.chance(1, 2) {
+        // a signature share for nothing (or somebody else's signature) on a bundle without spends
+        if rng.chance(2, 3) {
+            Tamper::ExtraSig { key: rng.below(NKEYS as u64) as u8, msg_seed: rng.below(1000) }
+        } else {
+            Tamper::ReplaySignature { from: rng.below(4) as u8 }
+        }
+    } else if rng.below(100) < tamper_pct {
         let cond = rng.below(total.max(1) as u64) as u8;
         match rng.below(17) {
             14 | 15 => Tamper::ReplaySignature { from: rng.below(4) as u8 },
@@ -1229,8 +1242,8 @@ fn gen_bundle(rng: &mut Rng, parent_counter: &mut u64, tamper_pct: u64, d: &[[u8
             2 => Tamper::FlipMsgByte { cond, pos: rng.below(64) as u16 },
             3 => Tamper::SwapKey { cond, key: KeySpec::Pool(3 + rng.below(3) as u8) },
             4 => Tamper::SwapKey { cond, key: if rng.chance(1, 2) { KeySpec::Infinity } else { KeySpec::Garbage(rng.below(256)) } },
-            5 | 6 => Tamper::ChangeAmount { spend: rng.below(nspends as u64) as u8, amount: pick_amount(rng) },
-            7 => Tamper::ChangeParent { spend: rng.below(nspends as u64) as u8 },
+            5 | 6 => Tamper::ChangeAmount { spend: rng.below(nspends.max(1) as u64) as u8, amount: pick_amount(rng) },
+            7 => Tamper::ChangeParent { spend: rng.below(nspends.max(1) as u64) as u8 },
             8 => Tamper::SwapOpcode { cond, opcode: 43 + rng.below(8) as u8 },
             9 => Tamper::WrongDomain { cond, opcode: 43 + rng.below(8) as u8 },
             _ => Tamper::UnsafeSuffix { cond, which: rng.below(14) as u8 },
